@@ -201,7 +201,7 @@ def check_fit_2d(ref, av, sc, chi2, float32=False, what=''):
     if ref.cond <= 1e8 and not float32:
         pa, ps = float(ref.av_star), float(ref.sc_star)
         tol = 1e-6 * (1 + max(abs(pa), abs(ps)))
-        if abs(av - pa) > tol or abs(sc - ps) > tol:
+        if not (abs(av - pa) <= tol) or not (abs(sc - ps) <= tol):
             return ('c01:parameters', '%s: reported (av=%r, sc=%r) differs from the optimum (av=%r, sc=%r)' % (
                 what, av, sc, pa, ps))
     sure, maybe = ref.penalties(av, sc, margin)
